@@ -29,7 +29,15 @@ ALPHA = ['a', 'b', 'A', ' ', 'a', 'b', '"', "'", ',', '(', u'é', u'Ü', '1',
          ' ', 'B']
 
 
+# texts that SPELL another kind of value (boolean, number, error, blank)
+SPECIAL = ['false', 'FALSE', 'False', 'true', 'TRUE', '0', '1', '-1', '00',
+           '0.0', '#N/A', '#VALUE!', '1e3', '1E3', 'null', 'None', 'nan',
+           'inf', ' ', 'falsehood', 'a false b', '=1', '+1', "'a"]
+
+
 def _text(d, maxlen):
+    if d.chance(1, 12):
+        return d.choice(SPECIAL)
     n = d.pick(maxlen + 1)
     return ''.join(d.choice(ALPHA) for _ in range(n))
 
@@ -90,7 +98,10 @@ def _build(d, maxlen):
         args = [s, t]
     elif fn in ('CONCAT', 'CONCATENATE', 'AMP'):
         args = [s] + [_text(d, 4) if d.pick(4) else d.int(0, 99)
+                      if d.pick(3) else bool(d.pick(2))
                       for _ in range(1 + d.pick(3))]
+        if d.chance(1, 6):
+            args[0] = bool(d.pick(2))
         if fn == 'AMP':
             mode = 'formula'
     else:
@@ -99,6 +110,9 @@ def _build(d, maxlen):
         s = s if isinstance(s, str) else str(s)
         args = [s, d.int(0, len(s) + 1), d.int(0, len(s) + 1), _text(d, 3)]
         mode = 'formula'
+    if mode == 'formula' and not fn.startswith('ID:') and d.chance(1, 3):
+        # the arguments come from CELLS instead of literals
+        mode = 'cells'
     return {'fn': fn, 'args': args, 'mode': mode}
 
 
@@ -167,6 +181,19 @@ def _same(exp, obs):
     return exp == obs
 
 
+def _same_cat(exp, obs, args):
+    """concatenation: the letter case of a boolean's text form is not
+    pinned down by the statement ('TRUE' in Excel, 'True' in this library,
+    where existing tests fix str(Boolean(True)) == 'True'): both pass."""
+    if _same(exp, obs):
+        return True
+    if any(isinstance(a, bool) for a in args):
+        alt = ''.join(str(a) if isinstance(a, bool) else RT.as_text(a)
+                      for a in args)
+        return obs == ('T', alt)
+    return False
+
+
 def _identity(name, s, n, k, t):
     """(formula, expected native)"""
     S = lit(s)
@@ -201,13 +228,31 @@ def judge(case):
         if not _same(_tag(exp), obs):
             res.fail('identity:%s' % fn[3:], _tag(exp), obs, f)
         return res
+    cells, presets, spell = None, None, lit
+    if mode == 'cells':
+        # argument i lives in cell A(i+1); texts starting with '=' / empty
+        # texts / booleans cannot be written into the dict: set_cell_value
+        cells, presets = {}, {}
+        for i, a in enumerate(args):
+            ad = 'Sheet1!A%d' % (i + 1)
+            if isinstance(a, bool) or a == '' or (
+                    isinstance(a, str) and a[:1] == '='):
+                cells[ad] = 987654
+                presets[ad] = a
+            else:
+                cells[ad] = a
+        names = iter('A%d' % (i + 1) for i in range(len(args)))
+
+        def spell(a, names=names):
+            return next(names)
     if fn == 'AMP':
         exp = RT.CONCAT(*args)
-        f = '=' + '&'.join(lit(a) for a in args)
-        obs, stage = lib.eval_formula(f)
+        f = '=' + '&'.join(spell(a) for a in args)
+        obs, stage = lib.eval_formula(f, cells, addr='Sheet1!Z1',
+                                      presets=presets)
         res.nontrivial = len(args) > 2
         res.labels = ('AMP',)
-        if not _same(_tag(exp), obs):
+        if not _same_cat(_tag(exp), obs, args):
             res.fail('value:&', _tag(exp), obs, f)
         return res
     exp = _tag(RT.FUNCS[fn](*args))
@@ -215,8 +260,9 @@ def judge(case):
         obs = lib.call_fn(fn, *args)
         note = None
     else:
-        note = '=%s(%s)' % (fn, ','.join(lit(a) for a in args))
-        obs, stage = lib.eval_formula(note)
+        note = '=%s(%s)' % (fn, ','.join(spell(a) for a in args))
+        obs, stage = lib.eval_formula(note, cells, addr='Sheet1!Z1',
+                                      presets=presets)
     s = args[1] if fn == 'FIND' else args[0]
     st_ = RT.as_text(s)
     ints = [a for a in args[1:] if isinstance(a, int)
@@ -226,7 +272,8 @@ def judge(case):
                for a in ints)
     res.nontrivial = rep or edge or exp[0] == 'E'
     res.labels = (fn, mode, 'exp:' + exp[0])
-    if not _same(exp, obs):
+    if not (_same_cat(exp, obs, args) if fn in ('CONCAT', 'CONCATENATE')
+            else _same(exp, obs)):
         if obs[0] == 'X':
             b = 'exception:%s:%s:%s' % (fn, obs[1], _argkinds(args))
         elif exp[0] == 'E':
